@@ -94,13 +94,13 @@ theorem not_exist {fs : FS} {p : RelPath} (h : fs.exist p = false) : fs.isFile p
 directory; then the name is an empty file and every other name is as before. Otherwise: Not allowed. -/
 theorem C13_create_file (fs : FS) (q : FsRequest) (ha : q.action = .CreateFile) :
     let p := relOf q.name1
-    ((processRequest fs q).1 = 0 ↔ (fs.exist p = false ∧ fs.parentIsDir p = true)) ∧
+    ((processRequest fs q).1 = 0 ↔ (p ≠ [] ∧ fs.exist p = false ∧ fs.parentIsDir p = true)) ∧
     ((processRequest fs q).1 = 0 →
       (processRequest fs q).2.get p = some (.file []) ∧ ∀ p', p' ≠ p → (processRequest fs q).2.get p' = fs.get p') ∧
     ((processRequest fs q).1 ≠ 0 → (processRequest fs q).1 = CreateFileStatus.NotAllowed.toNat) := by
   intro p
   simp only [p, processRequest, ha, FS.createFile]
-  cases h1 : fs.exist (relOf q.name1) <;> cases h2 : fs.parentIsDir (relOf q.name1)
+  cases h0 : (relOf q.name1).isEmpty <;> cases h1 : fs.exist (relOf q.name1) <;> cases h2 : fs.parentIsDir (relOf q.name1)
   all_goals first
     | (have := (not_exist h1).2
        simp_all [CreateFileStatus.toNat, get_set_self, get_set_other]
